@@ -29,7 +29,7 @@ FRAMES = [
                  'circus.watcher:Watcher.spawn_process', 'circus.watcher:Watcher.kill_processes',
                  'circus.watcher:Watcher._reload', 'circus.commands.kill:Kill.execute']},
 ]
-ASSUMPTIONS = ['A-PY', 'A-REAL: floats are mathematical reals (waited += 0.1)', 'A-1THREAD',
+ASSUMPTIONS = ['A-POLLREAP: Popen.poll() also reaps the zombie; the model keeps the pid in K_child until a waitpid (reap_process is verified for both waitpid answers)', 'A-PY', 'A-REAL: floats are mathematical reals (waited += 0.1)', 'A-1THREAD',
                'T-PSUTIL', 'A-PIDREUSE', 'A-HOOKPURE', 'A-ZMQSEND',
                'rely "kill": ownership of process.stopping by the kill_process instance that set it '
                '(argued from frame-scan stopping-writers and the stopping test at entry; not a VC)',
